@@ -7,6 +7,7 @@ import (
 	"crypto/rand"
 	"io"
 	"runtime"
+	"sync"
 
 	"github.com/go-errors/errors"
 	"github.com/privacybydesign/gabi/big"
@@ -27,10 +28,11 @@ func GenerateConcurrent(bitsize int, stop chan struct{}) (<-chan *big.Int, <-cha
 	// this, so that we always stop all goroutines independent of whether the caller close()s stop
 	// or sends a struct{}{} to it.
 	stopped := make(chan struct{})
+	var stopOnce sync.Once // stopped may be closed by the monitor and by any number of failing workers
 	go func() {
 		select {
 		case <-stop:
-			close(stopped)
+			stopOnce.Do(func() { close(stopped) })
 		case <-stopped: // stopped can also be closed by a goroutine that encountered an error
 		}
 	}()
@@ -43,7 +45,7 @@ func GenerateConcurrent(bitsize int, stop chan struct{}) (<-chan *big.Int, <-cha
 				x, err := Generate(bitsize, stopped)
 				if err != nil {
 					errs <- err
-					close(stopped)
+					stopOnce.Do(func() { close(stopped) })
 					return
 				}
 
